@@ -36,7 +36,7 @@ LANGS = ['R', 'darr', 'idl', 'julia_ver0', 'julia_ver1', 'maple', 'mathematica',
 
 
 def coqstr(s):
-    assert all((32 <= ord(c) < 127) or c == '\n' for c in s), repr(s)
+    assert all(32 <= ord(c) != 127 or c == '\n' for c in s), repr(s)      # (non-ASCII text: its UTF-8 bytes on both sides)
     return '"' + s.replace('"', '""') + '"'
 
 
@@ -108,7 +108,7 @@ def run(ctx):
                 code = ob['codes'][lang][mode]
                 ctx.seen(key, nontrivial=code is not None)
                 ctx.count(f'{lang}:{"offered" if code is not None else "withheld"}')
-                pm = dict(rel='PRel', base='(PBase "sub/arr.darr")', abs=f'(PAbs {coqstr(ob["absdir"])})',
+                pm = dict(rel='PRel', base=f'(PBase {coqstr(ob["basepath"])})', abs=f'(PAbs {coqstr(ob["absdir"])})',
                           both=f'(PAbs {coqstr(ob["absdir"])})')[mode]
                 terms.append(f'chk_rc {coqstr(lang)} {nt} {czl(ob["shape"])} {bo} {pm} {ostr(code)}')
                 keep.append((key, code))
